@@ -80,6 +80,14 @@ def workload(seed):
                          for a in sorted(D.AF_CORE) for k in sorted(D.SOCK)}
     out['socket_delegate'] = {f'{a},{k}': render('BSC_socket_delegate', (a, k, 0, 77), (0, 3, 0, 0))
                               for a in sorted(D.AF_CORE) for k in sorted(D.SOCK)}
+    # numbers Darwin does not list: whatever happens (a name, a bare number, an exception) must not depend on the host
+    out['signals_unlisted'] = {str(s): render('BSC_sigaction', (s, 0x10, 0x20, 0), (22, 0, 0, 0))
+                               for s in [0] + list(range(32, 70)) + [128, 1 << 31]}
+    out['socket_unlisted'] = {f'{a},{k}': render('BSC_socket', (a, k, 0, 0), (47, 0, 0, 0))
+                              for a, k in [(26, 1), (41, 1), (42, 1), (43, 2), (44, 1), (45, 1), (255, 1), (2, 0), (2, 6), (2, 10),
+                                           (2, 2048), (2, 2049), (2, 524288), (30, 524289), (1 << 31, 1)]}
+    out['socketpair_unlisted'] = {f'{a},{k}': render('BSC_socketpair', (a, k, 0, 0x99), (47, 0, 0, 0))
+                                  for a, k in [(26, 1), (42, 2), (2, 2048)]}
     levels = [D.SOL_SOCKET, 0, 1, 6, 17, 41, 42, 0xfffe]
     opts = sorted(D.SO_OPTIONS)
     out['setsockopt'] = {f'{l},{o}': render('BSC_setsockopt', (3, l, o, 4), (0, 0, 0, 0)) for l in levels for o in opts[:12]}
@@ -101,9 +109,31 @@ def workload(seed):
         out['formatted_kevents_digest'] = core.digest('\n'.join(PyKdebugParser().formatted_kevents(io.BytesIO(data))))
     except Exception as x:
         out['formatted_traces'] = [f'<raised {type(x).__name__}: {x}>']
-    f3 = gen.gen_v3(rng, m=3, n=2)
+    # wall-clock timestamps: the caller supplies the time base and the time zone, the host's TZ must not matter
+    from datetime import timezone, timedelta
+    pw = PyKdebugParser()
+    pw.color = False
+    pw.numer, pw.denom = 125, 3
+    pw.mach_absolute_time = 0x100000000
+    pw.usecs_since_epoch = 1600000000 * 10 ** 6 + 123456
+    pw.timezone = timezone(timedelta(hours=-7, minutes=-30))
+    try:
+        out['wall_clock_traces'] = list(pw.formatted_traces(io.BytesIO(data)))[:40]
+        out['wall_clock_kevents'] = list(pw.formatted_kevents(io.BytesIO(data)))[:40]
+        out['wall_clock_callstacks'] = list(pw.formatted_callstacks(io.BytesIO(data)))[:10]
+    except Exception as x:
+        out['wall_clock_traces'] = [f'<raised {type(x).__name__}: {x}>']
+    import plistlib
+    from vlib import logs
+    strings = logs.Strings(rng)
+    raws = [logs.gen_event(rng, strings, ['p', 'pid', 'send']) for _ in range(6)]
+    f3 = {'data': wire.V3Spec(entries=[(5, 6, b'logger', b'')], chunks=[[]], blocks=[
+        (wire.TAG_LOG_EVENTS, plistlib.dumps({'Events': raws}, fmt=plistlib.FMT_BINARY)),
+        (wire.TAG_LOG_STRINGS, plistlib.dumps(strings.plist(), fmt=plistlib.FMT_BINARY))]).build()}
     try:
         out['formatted_logs'] = list(PyKdebugParser().formatted_logs(io.BytesIO(f3['data'])))
+        if len(out['formatted_logs']) != len(raws):
+            out['formatted_logs'].append(f'<{len(out["formatted_logs"])} lines for {len(raws)} records>')
     except Exception as x:
         out['formatted_logs'] = [f'<raised {type(x).__name__}: {x}>']
     return out
